@@ -1,7 +1,380 @@
 package c12
 
-import "verif/mc/core"
+import (
+	"fmt"
+	"sort"
+	"strings"
 
-// typed engines are explored by the typed check binary (mctyped); see typed_*.go there.
-var typedMain = func(r *core.Run, b bounds) {}
-var typedReplay = func(r *core.Run, c Case) {}
+	"github.com/ipld/go-ipld-prime/datamodel"
+	"github.com/ipld/go-ipld-prime/schema"
+
+	"verif/mc/core"
+	"verif/mc/ref"
+	"verif/mc/rs"
+	"verif/mc/typed"
+)
+
+// Typed engines: the same exploration idea on the map-shaped typed assemblers (structs with map
+// representation incl. renames and optional fields, typed maps, keyed unions), at type level and at
+// representation level. A state is the ordered list of keys accepted so far (+ the sticky rejection
+// route); a key call is the macro (supply key, assign a value of the field's kind).
+
+type TCase struct {
+	Engine string   `json:"engine"`
+	Schema string   `json:"schema"`
+	Type   string   `json:"type"`
+	Repr   bool     `json:"representation_level"`
+	Calls  []string `json:"calls"` // "<Route>:<key>" | "Finish" | "Build"
+}
+
+var TypedEngines = func() []typed.Engine { return []typed.Engine{typed.NewBindEngine()} }
+
+type tkey struct {
+	name string // key as supplied at this level
+	own  string // the field / member / key it denotes at type level
+	val  ref.Val
+	req  bool
+}
+
+// keysOf lists the keys a builder of t at the given level accepts, with a valid value for each.
+func keysOf(s *rs.Schema, t *rs.Type, repr bool) ([]tkey, bool) {
+	valOf := func(tn string) (ref.Val, bool) {
+		switch s.T(tn).Kind {
+		case rs.TInt:
+			return ref.Int(1), true
+		case rs.TString:
+			return ref.Str("s"), true
+		case rs.TBool:
+			return ref.Bool(true), true
+		}
+		return ref.Val{}, false
+	}
+	var out []tkey
+	switch t.Kind {
+	case rs.TStruct:
+		if repr && t.SRepr != "map" {
+			return nil, false
+		}
+		for _, f := range t.Fields {
+			v, ok := valOf(f.Type)
+			if !ok {
+				return nil, false
+			}
+			name := f.Name
+			if repr && f.Rename != "" {
+				name = f.Rename
+			}
+			out = append(out, tkey{name, f.Name, v, !f.Optional})
+		}
+		return out, true
+	case rs.TMap:
+		v, ok := valOf(t.ValType)
+		if !ok {
+			return nil, false
+		}
+		return []tkey{{"a", "a", v, false}, {"b", "b", v, false}}, true
+	}
+	return nil, false
+}
+
+type tstate struct {
+	done     []string // own names, in acceptance order
+	rejected string
+	finished bool
+	built    bool
+}
+
+func (st tstate) key() string {
+	return fmt.Sprintf("%v|%s|%v|%v", st.done, st.rejected, st.finished, st.built)
+}
+
+func expectedValue(s *rs.Schema, t *rs.Type, keys []tkey, done []string) ref.Val {
+	if t.Kind == rs.TMap {
+		m := ref.Map()
+		for _, d := range done {
+			for _, k := range keys {
+				if k.own == d {
+					m.M = append(m.M, ref.Entry{K: d, V: k.val})
+				}
+			}
+		}
+		return m
+	}
+	m := ref.Map()
+	for _, f := range t.Fields {
+		v := ref.Absent()
+		for _, d := range done {
+			if d == f.Name {
+				for _, k := range keys {
+					if k.own == d {
+						v = k.val
+					}
+				}
+			}
+		}
+		m.M = append(m.M, ref.Entry{K: f.Name, V: v})
+	}
+	return m
+}
+
+// runTyped replays the calls on a fresh real builder, checking every call against the model.
+func runTyped(eng typed.Engine, s *rs.Schema, t *rs.Type, repr bool, keys []tkey, calls []string) (fs []core.Finding, st tstate, ended bool) {
+	lvl := "type"
+	if repr {
+		lvl = "repr"
+	}
+	site := fmt.Sprintf("%s/%s/%s", eng.Name(), lvl, map[bool]string{true: "struct", false: "map"}[t.Kind == rs.TStruct])
+	where := func(i int) string {
+		return fmt.Sprintf("%s %s.%s %s-level: calls %v, step %d (%s)", eng.Name(), s.Name, t.Name, lvl, calls, i, calls[i])
+	}
+	var nb datamodel.NodeBuilder
+	var ma datamodel.MapAssembler
+	var err error
+	if pan := core.Guard(func() {
+		nb = eng.Proto(s, t.Name, repr).NewBuilder()
+		ma, err = nb.BeginMap(int64(len(keys)))
+	}); pan != "" || err != nil {
+		return []core.Finding{core.F(site+"/beginmap-fails", "%s.%s: %v %s", s.Name, t.Name, err, pan)}, st, true
+	}
+	for i, c := range calls {
+		after := "clean"
+		if st.rejected != "" {
+			after = "after-rejected-" + st.rejected
+		}
+		switch {
+		case c == "Finish":
+			missing := false
+			for _, k := range keys {
+				has := false
+				for _, d := range st.done {
+					if d == k.own {
+						has = true
+					}
+				}
+				if k.req && !has {
+					missing = true
+				}
+			}
+			var ferr error
+			pan := core.Guard(func() { ferr = ma.Finish() })
+			if pan != "" {
+				cause := "legal-call-panic"
+				if st.rejected != "" {
+					cause = "wedged-after-reject"
+				}
+				return []core.Finding{core.F(fmt.Sprintf("%s/%s(%s)", site, cause, after), "%s: %s", where(i), pan)}, st, true
+			}
+			if missing {
+				if ferr == nil {
+					return []core.Finding{core.F(site+"/finish-accepts-missing-field", "%s", where(i))}, st, true
+				}
+				return nil, st, true
+			}
+			if ferr != nil {
+				cause := "legal-call-error"
+				if st.rejected != "" {
+					cause = "wedged-after-reject"
+				}
+				return []core.Finding{core.F(fmt.Sprintf("%s/%s(%s)", site, cause, after), "%s: %v", where(i), ferr)}, st, true
+			}
+			st.finished = true
+		case c == "Build":
+			var got ref.Val
+			pan := core.Guard(func() {
+				n := nb.Build()
+				got, _ = ref.ObserveTyped(n)
+				if tn, ok := n.(schema.TypedNode); ok && false {
+					_ = tn
+				}
+			})
+			if pan != "" {
+				return []core.Finding{core.F(fmt.Sprintf("%s/build-panic(%s|%s)", site, after, core.Class(pan)), "%s: %s", where(i), pan)}, st, true
+			}
+			want := expectedValue(s, t, keys, st.done)
+			if !ref.Equal(got, want) {
+				cause := "result-differs"
+				if st.rejected != "" {
+					cause = "side-effect-after-reject"
+				}
+				return []core.Finding{core.F(fmt.Sprintf("%s/%s(%s)", site, cause, after), "%s: model %s, built %s", where(i), want, got)}, st, true
+			}
+			st.built = true
+		default:
+			route, kname, _ := strings.Cut(c, ":")
+			var k tkey
+			for _, x := range keys {
+				if x.name == kname {
+					k = x
+				}
+			}
+			dup := false
+			for _, d := range st.done {
+				if d == k.own {
+					dup = true
+				}
+			}
+			var kerr error
+			var at string
+			var va datamodel.NodeAssembler
+			pan := core.Guard(func() {
+				switch route {
+				case "Entry":
+					va, kerr = ma.AssembleEntry(k.name)
+					at = "AssembleEntry"
+				case "KeyString":
+					kerr = ma.AssembleKey().AssignString(k.name)
+					at = "AssembleKey.AssignString"
+					if kerr == nil {
+						va = ma.AssembleValue()
+					}
+				case "KeyNode":
+					kerr = ma.AssembleKey().AssignNode(ref.Node(ref.Str(k.name)))
+					at = "AssembleKey.AssignNode"
+					if kerr == nil {
+						va = ma.AssembleValue()
+					}
+				}
+				if kerr == nil && !dup {
+					kerr = ref.Assign(va, k.val)
+					if kerr != nil {
+						at = "value assignment"
+					}
+				}
+			})
+			if pan != "" {
+				cause := "legal-call-panic"
+				if dup {
+					cause = "dup-panic"
+				}
+				if st.rejected != "" {
+					cause = "wedged-after-reject"
+				}
+				return []core.Finding{core.F(fmt.Sprintf("%s/%s(%s)", site, cause, after), "%s: %s", where(i), pan)}, st, true
+			}
+			if dup {
+				if kerr == nil {
+					return []core.Finding{core.F(fmt.Sprintf("%s/dup-accepted(%s)", site, route), "%s: repeated key accepted by %s", where(i), at)}, st, true
+				}
+				if !isRepeatedKey(kerr) {
+					return []core.Finding{core.F(fmt.Sprintf("%s/dup-wrong-error(%s|%T)", site, route, kerr), "%s: %v", where(i), kerr)}, st, true
+				}
+				if st.rejected == "" {
+					st.rejected = route
+				}
+				continue
+			}
+			if kerr != nil {
+				cause := "legal-call-error"
+				if st.rejected != "" {
+					cause = "wedged-after-reject"
+				}
+				return []core.Finding{core.F(fmt.Sprintf("%s/%s(%s)", site, cause, after), "%s: %s returned %v", where(i), at, kerr)}, st, true
+			}
+			st.done = append(st.done, k.own)
+		}
+	}
+	return nil, st, false
+}
+
+func enabledTyped(st tstate, keys []tkey) []string {
+	if st.built {
+		return nil
+	}
+	if st.finished {
+		return []string{"Build"}
+	}
+	var out []string
+	for _, k := range keys {
+		for _, route := range []string{"Entry", "KeyString", "KeyNode"} {
+			out = append(out, route+":"+k.name)
+		}
+	}
+	return append(out, "Finish")
+}
+
+func exploreTyped(r *core.Run, eng typed.Engine, s *rs.Schema, t *rs.Type, repr bool) {
+	keys, ok := keysOf(s, t, repr)
+	if !ok || len(keys) == 0 {
+		return
+	}
+	seen := map[string]bool{tstate{}.key(): true}
+	frontier := [][]string{nil}
+	var states, trans int64
+	for depth := 0; len(frontier) > 0 && depth < 2*len(keys)+4; depth++ {
+		var next [][]string
+		for _, cur := range frontier {
+			_, st, ended := runTyped(eng, s, t, repr, keys, cur)
+			if ended {
+				continue
+			}
+			states++
+			for _, c := range enabledTyped(st, keys) {
+				calls := append(append([]string(nil), cur...), c)
+				fs, st2, ended := runTyped(eng, s, t, repr, keys, calls)
+				trans++
+				r.Traces.Add(1)
+				r.Report("typed-calls", TCase{eng.Name(), s.Name, t.Name, repr, calls}, fs)
+				if len(fs) > 0 || ended {
+					continue
+				}
+				if k := st2.key(); !seen[k] {
+					seen[k] = true
+					next = append(next, calls)
+				}
+			}
+		}
+		sort.Slice(next, func(i, j int) bool { return fmt.Sprint(next[i]) < fmt.Sprint(next[j]) })
+		frontier = next
+	}
+	r.States.Add(states)
+	r.Transitions.Add(trans)
+	r.Evals.Add(trans)
+	r.NontrivialN(trans)
+	r.Outcome(eng.Name() + "/typed:" + rs.Strategy(t))
+}
+
+func init() {
+	typedMain = func(r *core.Run, b bounds) {
+		fams := rs.Families(true)
+		type job struct {
+			eng  typed.Engine
+			s    *rs.Schema
+			t    *rs.Type
+			repr bool
+		}
+		var jobs []job
+		for _, eng := range TypedEngines() {
+			for _, s := range fams {
+				if eng.Proto(s, "Int", false) == nil {
+					continue
+				}
+				for _, tn := range s.Roots {
+					for _, repr := range []bool{false, true} {
+						jobs = append(jobs, job{eng, s, s.T(tn), repr})
+					}
+				}
+			}
+		}
+		core.ParallelFor(len(jobs), func(i int) { exploreTyped(r, jobs[i].eng, jobs[i].s, jobs[i].t, jobs[i].repr) })
+		r.Sample(TCase{"bindnode", "fam01", "SMswap", true, []string{"Entry:q", "KeyString:q", "KeyNode:p", "Finish", "Build"}})
+	}
+	typedReplay = func(r *core.Run, c Case) {}
+}
+
+// ReplayTyped re-executes a typed call sequence.
+func ReplayTyped(r *core.Run, c TCase) {
+	for _, eng := range TypedEngines() {
+		if eng.Name() != c.Engine {
+			continue
+		}
+		for _, s := range rs.Families(false) {
+			if s.Name != c.Schema {
+				continue
+			}
+			t := s.T(c.Type)
+			keys, _ := keysOf(s, t, c.Repr)
+			fs, _, _ := runTyped(eng, s, t, c.Repr, keys, c.Calls)
+			r.Report("typed-calls", c, fs)
+		}
+	}
+}
